@@ -432,12 +432,19 @@ func execIcpt(s spec, st *stats) *fail {
 		// an earlier life of every stream on the same interceptor: the same media and FEC SSRC negotiated with
 		// another FEC payload type, one full batch sent, then unbound (a renegotiation that renumbers payload
 		// types); nothing of it may show in what follows
+		var lateUnbind *interceptor.StreamInfo
 		for _, is := range streams {
 			old := &interceptor.StreamInfo{SSRC: is.ssrc, PayloadTypeForwardErrorCorrection: is.fecPT ^ 0x15, SSRCForwardErrorCorrection: is.fecSSRC}
 			w := ic.BindLocalStream(old, &hk.RTPSink{})
 			for i := 0; i < s.K; i++ {
 				h := rtp.Header{Version: 2, PayloadType: 96, SSRC: is.ssrc, SequenceNumber: uint16(30000 + i), Timestamp: uint32(i)}
 				_, _ = w.Write(&h, []byte{1, 2, 3, byte(i)}, interceptor.Attributes{})
+			}
+			if is == streams[0] {
+				// the first stream's earlier binding is unbound only after the new binding has been made and has
+				// carried its first packet (the application replaces the track, then removes the old one)
+				lateUnbind = old
+				continue
 			}
 			ic.UnbindLocalStream(old)
 		}
@@ -454,6 +461,9 @@ func execIcpt(s spec, st *stats) *fail {
 					vsched.Failf("Write returned %v", err)
 					return
 				}
+			}
+			if i == 0 && lateUnbind != nil {
+				ic.UnbindLocalStream(lateUnbind)
 			}
 		}
 		for _, is := range streams {
